@@ -2760,7 +2760,7 @@ func (d *decoderCborBytes) structFieldNotFound(index int, rvkencname string) {
 	if d.h.ErrorIfNoField {
 		if index >= 0 {
 			halt.errorInt("no matching struct field found when decoding stream array at index ", int64(index))
-		} else if rvkencname != "" {
+		} else {
 			halt.errorStr2("no matching struct field found when decoding stream map with key ", rvkencname)
 		}
 	}
@@ -6765,7 +6765,7 @@ func (d *decoderCborIO) structFieldNotFound(index int, rvkencname string) {
 	if d.h.ErrorIfNoField {
 		if index >= 0 {
 			halt.errorInt("no matching struct field found when decoding stream array at index ", int64(index))
-		} else if rvkencname != "" {
+		} else {
 			halt.errorStr2("no matching struct field found when decoding stream map with key ", rvkencname)
 		}
 	}
